@@ -21,7 +21,9 @@ static const char* const jmespaths[] = {
     "map(&to_number(code), store.book)", "store.book[*].[title, price]", "reverse(store.book[*].title)", "avg(store.book[*].price)",
     "not_null(store.missing, store.bicycle.color)", "store.book[?category == 'fiction' && price > `8`] | [0].author", "merge(store.bicycle, {extra: `1`})",
     "type(store)", "starts_with(store.bicycle.color, 'r')", "sort(store.book[*].author)", "store.book[*].tags | [] | length(@)", "abs(`-3`)",
-    "store.book[?price > 'a']", "floor(store.book[0].price)", "to_array(store.bicycle.color)", "min_by(store.book, &price).price"
+    "store.book[?price > 'a']", "floor(store.book[0].price)", "to_array(store.bicycle.color)", "min_by(store.book, &price).price",
+    "ceil(store.book[0].price)", "ends_with(store.bicycle.color, 'd')", "max(store.book[*].price)", "min(store.book[*].author)",
+    "store.book[*].to_number(code)", "to_number(store.bicycle.color)", "store.book[*].to_number(isbn)", "sum(store.book[*].to_number(code) | [?@ != null])"
 };
 struct SchemaCase { const char* schema; const char* inst; };
 static const SchemaCase schemas[] = {
@@ -54,7 +56,12 @@ inline MVal store_doc(Rng& r) {
         b.set("title", MVal::str(r.pick(titles)));
         if (r.coin()) b.set("isbn", MVal::str("0-553-21311-3"));
         b.set("price", r.chance(1, 6) ? MVal::integer((int64_t)r.below(30)) : MVal::dbl((double)r.below(3000) / 100.0 + 0.5));
-        b.set("code", MVal::str(std::to_string(r.below(500))));
+        {   // mostly plain integers; also the other branches of to_number(): negative, decimal, exponent, not a number
+            unsigned sel = (unsigned)r.below(8);
+            std::string code = std::to_string(r.below(500));
+            if (sel == 0) code = "-" + code; else if (sel == 1) code += ".25"; else if (sel == 2) code = "1." + code + "e2"; else if (sel == 3) code = "n/a " + code;
+            b.set("code", MVal::str(code));
+        }
         MVal tags = MVal::arr(); size_t nt = r.below(4); for (size_t k = 0; k < nt; ++k) tags.push(MVal::str(std::string(1, (char)('a' + r.below(3)))));
         b.set("tags", tags);
         books.push(b);
